@@ -412,6 +412,7 @@ func (t *Template) parseBlock() Node {
 	var pipe Expression
 
 	name := t.expect(itemIdentifier, context, "name")
+	line := t.lex.lineNumber() // of the block clause, not of its {{end}}
 	bplist := t.blockParametersList(true, context)
 
 	if t.peekNonSpace().typ != itemRightDelim {
@@ -427,7 +428,7 @@ func (t *Template) parseBlock() Node {
 		contentList, end = t.itemList(nodeEnd)
 	}
 
-	block := t.newBlock(name.pos, t.lex.lineNumber(), name.val, bplist, pipe, list, contentList)
+	block := t.newBlock(name.pos, line, name.val, bplist, pipe, list, contentList)
 	t.passedBlocks[block.Name] = block
 	return block
 }
@@ -444,13 +445,14 @@ func (t *Template) parseYield() Node {
 
 	// parse block name
 	name = t.nextNonSpace()
+	line := t.lex.lineNumber() // of the yield clause, not of the {{end}} of its content
 	if name.typ == itemContent {
 		// content yield {{yield content}}
 		if t.peekNonSpace().typ != itemRightDelim {
 			pipe = t.expression(context, "content context")
 		}
 		t.expectRightDelim(context)
-		return t.newYield(name.pos, t.lex.lineNumber(), "", nil, pipe, nil, true)
+		return t.newYield(name.pos, line, "", nil, pipe, nil, true)
 	} else if name.typ != itemIdentifier {
 		t.unexpected(name, context, "block name")
 	}
@@ -480,7 +482,7 @@ func (t *Template) parseYield() Node {
 		}
 	}
 
-	return t.newYield(name.pos, t.lex.lineNumber(), name.val, bplist, pipe, content, false)
+	return t.newYield(name.pos, line, name.val, bplist, pipe, content, false)
 }
 
 func (t *Template) parseInclude() Node {
